@@ -427,7 +427,12 @@ where
         result.push_str(&carbon_count.to_string());
     }
     let mut items: Vec<(&ElementSpecification, &i32)> = composition.iter().collect();
-    items.sort_by(|a, b| a.0.element.symbol.cmp(&b.0.element.symbol));
+    items.sort_by(|a, b| {
+        a.0.element
+            .symbol
+            .cmp(&b.0.element.symbol)
+            .then(a.0.isotope.cmp(&b.0.isotope))
+    });
     for (key, count) in items {
         // Skip the C and N
         if ((key.element.symbol == "C") || (key.element.symbol == "H")) && key.isotope == 0 {
